@@ -315,6 +315,37 @@ pub fn run(ctx: &Ctx, rep: &mut Report) {
                 }
             }
         }
+        // ten samples through the CLI with --threads 2 (parallel build path): names and columns as single-threaded
+        idx += 1;
+        if ctx.mine(idx) {
+            let k = 17usize;
+            let h = (k - 1) / 2;
+            let anc = repeat_free(6 * k, k, 0, ctx.seed + 301);
+            let n = 10usize;
+            // derived alleles carried mostly by the second half of the samples
+            let c = Case { k, ancestor: anc, sites: vec![h, 3 * k, 6 * k - 1 - h], alleles: vec![(0..n).map(|i| (i >= 5) as u8).collect(), (0..n).map(|i| (i == 9) as u8).collect(), (0..n).map(|i| (i >= 7) as u8 * 2).collect()], flip: (0..n).map(|i| i % 3 == 1).collect(), cut: 0 };
+            let dir = scratch::path("c03cli10");
+            let _ = std::fs::create_dir_all(&dir);
+            let samples = c.samples();
+            let mut args: Vec<String> = vec!["align".into(), "--min-freq".into(), "1".into(), "--threads".into(), "2".into()];
+            let mut want_names = Vec::new();
+            for i in 0..n {
+                std::fs::write(format!("{dir}/smp{i}.fa"), scratch::fasta(&samples[i])).unwrap();
+                args.push(format!("smp{i}.fa"));
+                want_names.push(format!("smp{i}"));
+            }
+            let av: Vec<&str> = args.iter().map(|s| s.as_str()).collect();
+            let o = cli::run(&av, &dir, None);
+            rep.evaluations += 1;
+            rep.nontrivial += 1;
+            rep.corner("cli_align_10_samples_2_threads");
+            let (nm, seqs) = real::parse_fasta(&o.stdout);
+            let mut got: Vec<Vec<u8>> = real::columns_of(&seqs).unwrap_or_default().iter().map(|x| canon_col(x)).collect();
+            got.sort();
+            if o.code != 0 || nm != want_names || got != c.planted() {
+                rep.violate("cli align 10 samples --threads 2".into(), format!("ska align --threads 2 on 10 FASTA files: exit {} names {nm:?}, {} columns, planted {}", o.code, got.len(), c.planted().len()), json!({"cli": "align 10 samples 2 threads"}));
+            }
+        }
         rep.completed.push("CLI sub-family".into());
     }
 }
